@@ -31,6 +31,9 @@ def configs(tier):
     # the shape of the offset operand is a parameter too: an offset signal just wide enough for 0..w-1, and constant offsets
     out += [{"fn": "scalar", "w": w, "off": "narrow"} for w in W if w >= 2]
     out += [{"fn": "scalar_const", "w": w} for w in (W if tier != "quick" else (1, 2, 3, 4, 8))]
+    # the value operand's shape is a parameter as well: signed-shaped values are shifted as bit patterns, like unsigned ones
+    out += [{"fn": "scalar", "w": w, "signed": True} for w in ((2, 3, 5) if tier == "quick" else range(1, 9))]
+    out += [{"fn": "scalar_const", "w": w, "signed": True} for w in ((3, 4) if tier == "quick" else range(1, 9))]
     out += [{"fn": "vector", "n": n, "shape": "u2", "off": "narrow"} for n in (2, 3, 4)]
     lens = [1, 2, 3, 4, 5] if tier == "quick" else [1, 2, 3, 4, 5, 6, 7, 8]
     for n in lens:
@@ -50,8 +53,8 @@ def sel(bits, idx, default):
 def run(cfg, ctx):
     if cfg["fn"] == "scalar":
         w = cfg["w"]
-        v = Signal(w, name="v")
-        v2 = Signal(w, name="v2")
+        v = Signal(signed(w) if cfg.get("signed") else w, name="v")
+        v2 = Signal(signed(w) if cfg.get("signed") else w, name="v2")
         off = Signal(range(w) if cfg.get("off") == "narrow" else range(2 * w + 1), name="off")
         ph = Signal(1, name="ph")
         c = Comb([v, v2, off, ph], lambda m: [S.shift_left(v, off, ph), S.shift_right(v, off, ph), S.rotate_left(v, off), S.rotate_right(v, off),
@@ -86,7 +89,7 @@ def run(cfg, ctx):
     elif cfg["fn"] == "scalar_const":
         # constant offsets 0..w given as Python ints
         w = cfg["w"]
-        v = Signal(w, name="v")
+        v = Signal(signed(w) if cfg.get("signed") else w, name="v")
         ph = Signal(1, name="ph")
         ks = list(range(w + 1))
         c = Comb([v, ph], lambda m: [x for k in ks for x in (S.shift_left(v, k, ph), S.shift_right(v, k, ph), S.rotate_left(v, k), S.rotate_right(v, k))])
